@@ -111,7 +111,8 @@ async fn run_async(ctx: &mut Ctx, enumerate: bool) {
     let mut next_rid = 1u64;
     let mut mutated = 0u32;
     // which address each session (key-log entry) was established with
-    let mut hs_in: Vec<(usize, std::net::SocketAddr, discv5::enr::NodeId)> = vec![];
+    let mut hs_in: Vec<(usize, std::net::SocketAddr, discv5::enr::NodeId, Vec<u8>)> = vec![];
+    let mut chal_out: Vec<(usize, std::net::SocketAddr, discv5::enr::NodeId, Vec<u8>)> = vec![];
     let mut hs_out: Vec<(usize, std::net::SocketAddr, discv5::enr::NodeId)> = vec![];
     let mut session_addr: std::collections::BTreeMap<usize, std::net::SocketAddr> = Default::default();
     let mut keys_seen = 0usize;
@@ -125,7 +126,29 @@ async fn run_async(ctx: &mut Ctx, enumerate: bool) {
         while keys_seen < w.keylog.len() {
             let k = w.keylog[keys_seen].1.clone();
             if let Some(n) = w.node_by_id(&k.local) {
-                let a = if k.initiator { hs_out.iter().rev().find(|(m, _, id)| *m == n && *id == k.remote).map(|x| x.1) } else { hs_in.iter().rev().find(|(m, _, id)| *m == n && *id == k.remote).map(|x| x.1) };
+                let a = if k.initiator {
+                    hs_out.iter().rev().find(|(m, _, id)| *m == n && *id == k.remote).map(|x| x.1)
+                } else {
+                    // exactly the (challenge, handshake) pair whose key agreement reproduces the logged keys
+                    let key = w.key_of(n);
+                    let mut found = None;
+                    'o: for (m, src, id, ephem) in hs_in.iter().rev() {
+                        if *m != n || *id != k.remote {
+                            continue;
+                        }
+                        for (cm, dst, did, cd) in chal_out.iter().rev() {
+                            if *cm == n && dst == src && *did == k.remote {
+                                if let Some((ikey, rkey)) = toolkit::recipient_keys(&key, &k.local, &k.remote, cd, ephem) {
+                                    if ikey == k.decryption_key && rkey == k.encryption_key {
+                                        found = Some(*src);
+                                        break 'o;
+                                    }
+                                }
+                            }
+                        }
+                    }
+                    found
+                };
                 if let Some(a) = a {
                     session_addr.insert(keys_seen, a);
                 }
@@ -139,6 +162,9 @@ async fn run_async(ctx: &mut Ctx, enumerate: bool) {
                 if let Some(d) = &w.wire[wi].dec {
                     if matches!(d.kind, PacketKind::Handshake { .. }) {
                         hs_out.push((from, out.0, out.1));
+                    }
+                    if matches!(d.kind, PacketKind::WhoAreYou { .. }) {
+                        chal_out.push((from, out.0, out.1, d.authenticated_data.clone()));
                     }
                 }
                 let is_target = match target {
@@ -250,8 +276,8 @@ async fn run_async(ctx: &mut Ctx, enumerate: bool) {
             Obs::Sched(Ev::Deliver { to, src, bytes, origin }) => {
                 if w.nodes[to].alive {
                     if let Ok(d) = toolkit::decode_packet(&w.nodes[to].id, &bytes) {
-                        if let PacketKind::Handshake { src_id, .. } = d.kind {
-                            hs_in.push((to, src, src_id));
+                        if let PacketKind::Handshake { src_id, ephem_pubkey, .. } = d.kind {
+                            hs_in.push((to, src, src_id, ephem_pubkey));
                         }
                     }
                     w.deliver(to, src, bytes, origin);
